@@ -18,8 +18,10 @@
   oracle      the property itself on the real code, with an independent numpy density-matrix reference
               (textbook Kraus forms; channels after every gate whose OWN name is noisy): final state, zero-noise
               limit vs. the noiseless statevector, tr(rho H) vs. expectation_value_from_prepared_state, the
-              frequency route of get_expectation_value (sampling: support only, 6 sigma), malformed / out-of-range
-              specifications must be rejected somewhere before a result is produced
+              frequency route of get_expectation_value (sampling: support only, 6 sigma); specifications of the wrong
+              type / shape and parameters that are not channels for the gate they are attached to (negative, Pauli
+              rates summing above 1, depol p > 4^k/(4^k-1)) must be rejected in add_quantum_error or at translation;
+              depol p in (1, 4^k/(4^k-1)] is a valid channel and must be simulated as specified
 """
 import cmath
 import itertools
@@ -47,7 +49,6 @@ Definition bi (noisy sv shots nm : bool) := show_backend (backend_init noisy sv 
 """
 
 SIG_RENAME = "C19/translate_c_to_cirq/multi-controlled-CNOT-noise-lookup-after-rename"
-SIG_RATE = "C19/add_quantum_error/depol-rate-above-one-accepted"
 ZETA = cmath.exp(1j * math.pi / 16)
 TOL = 1e-9
 
@@ -563,7 +564,8 @@ def noisy_two_qubit(gs, calls):
 
 
 def rand_bad_rate_calls(rng, names):
-    """calls accepted by add_quantum_error whose rates are outside [0,1] or sum above 1"""
+    """calls accepted by add_quantum_error whose parameters are (mostly) not channels: negative, Pauli sums above 1,
+    depol values around and beyond the limit 4^k/(4^k-1) (valid or not depending on the gate they meet)"""
     g = rng.choice(sorted(set(names)))
     r = rng.random()
     if r < 0.3:
@@ -631,10 +633,6 @@ def run_placement_stream(ck, n_cases, renamed):
 RENAME_DESC = ("noise attached to 'CNOT' is not applied after a CNOT gate with two or more controls (and noise attached "
                "to 'CX' is applied to it instead): translate_c_to_cirq renames the gate to 'CX' (on a copy) before the "
                "look-up `gate.name in noise_model.noisy_gates`")
-RATE_DESC = ("a depolarising probability above 1 is accepted by add_quantum_error and simulated whenever "
-             "p*(4^k-1)/4^k <= 1 (e.g. 1.2 on a one-qubit gate becomes cirq.depolarize(0.9)); negative values and "
-             "larger ones are only caught by cirq at simulation time")
-
 
 def density_oracle(ck, gs, errs, rho, r_spec, r_asis, replay):
     """the property on the implementation alone: final state vs the specified channels (numpy reference)"""
@@ -653,7 +651,7 @@ def density_oracle(ck, gs, errs, rho, r_spec, r_asis, replay):
 
 def placement_oracle(ck, gs, calls, toks, replay):
     """the property on the operation list alone: after every gate whose OWN name is noisy, every attached error in
-    attachment order, on targets and controls; out-of-range rates must not get through"""
+    attachment order, on targets and controls; parameters that are not channels must not get through"""
     errs = errors_of_calls(calls)
 
     def expected(key):
@@ -677,17 +675,31 @@ def placement_oracle(ck, gs, calls, toks, replay):
             ck.violation("C19/translate_c_to_cirq/channels-misplaced", "channels are not 'after every occurrence of "
                          "each noisy gate on targets and controls': got %s want %s" % (toks[:12], want[:12]),
                          dict(replay, kind="placement-oracle"), found_input=True)
-    # rates that are not probabilities must not get through (only errors the NoiseModel actually stored count)
-    for g, lst in errs.items():
-        used = any(asis_key(s) == g for s in gs)
-        for nt, v in lst:
-            if nt == "depol" and (v < 0 or v > 1) and used and any(t[0] == "D" for t in toks):
-                ck.violation(SIG_RATE, RATE_DESC, dict(replay, kind="rate"), found_input=True)
-            if nt == "pauli" and all(e is not None for e in v) and \
-                    (any(e < 0 or e > 1 for e in v) or sum(v) > 1) and used and any(t[0] == "P" for t in toks):
-                ck.violation("C19/add_quantum_error/pauli-rates-out-of-range-accepted",
-                             "Pauli error rates %s outside the probability simplex were accepted and simulated" % (v,),
-                             dict(replay, kind="rate"), found_input=True)
+    # specifications that are not channels for the gate they are attached to must be rejected somewhere before a
+    # circuit is produced (here: the translation succeeded, so nothing rejected them).  In Tangelo's parametrisation
+    # (1-p) rho + p I/2^k a depolarising p is a channel iff 0 <= p <= 4^k/(4^k-1), i.e. iff p' = p(4^k-1)/4^k is in
+    # [0,1] (C19_depolarize_channel_range_real); p in (1, 4^k/(4^k-1)] is VALID (Tangelo's own tests use 4/3).
+    for s in gs:
+        k = len(s["target"]) + len(s["control"] or [])
+        for nt, v in errs.get(s["name"], []):
+            if nt == "depol" and (v < 0 or v * (4 ** k - 1) / 4 ** k > 1):
+                ck.violation("C19/noise/non-channel-depol-accepted", "depolarising parameter %s is not a channel on the %d-qubit "
+                             "gate %s but the noisy circuit was built" % (v, k, s["name"]), dict(replay, kind="rate"), found_input=True)
+            if nt == "pauli" and all(e is not None for e in v) and (any(e < 0 for e in v) or sum(v) > 1):
+                ck.violation("C19/noise/non-channel-pauli-accepted", "Pauli error rates %s are outside the probability "
+                             "simplex but the noisy circuit was built" % (v,), dict(replay, kind="rate"), found_input=True)
+
+
+def non_channels(gs, errs):
+    """errors that are not channels on some gate of the circuit they apply to (cirq must reject the translation)"""
+    out = []
+    for s in gs:
+        k = len(s["target"]) + len(s["control"] or [])
+        for nt, v in errs.get(s["name"], []):
+            if (nt == "depol" and (v < 0 or v * (4 ** k - 1) / 4 ** k > 1)) or \
+                    (nt == "pauli" and (any(e is None or e < 0 for e in v) or sum(e for e in v if e is not None) > 1)):
+                out.append((s["name"], k, nt, v))
+    return out
 
 
 def rand_operator(rng, n):
@@ -723,6 +735,11 @@ def run_density_stream(ck, n_cases, renamed):
         calls = rand_calls(ck.rng, names, zero=zero, absent_p=0.05, must=mc_name(gs))
         if ck.rng.random() < 0.25 and "CNOT" in names and not any(g == "CX" for g, _, _ in calls):
             calls.append(("CX", "depol", ("f", F(0) if zero else ck.rng.choice(RATES))))
+        if not zero and ck.rng.random() < 0.2:
+            # depolarising parameters above 1: channels iff p <= 4^k/(4^k-1) for every gate they meet
+            g = ck.rng.choice(names)
+            if not any(c[0] == g and c[1] == "depol" for c in calls):
+                calls.append((g, "depol", ("f", ck.rng.choice([F(17, 16), F(16, 15), F(64, 63), F(4, 3), F(9, 8), F(65, 64), F(11, 8)]))))
         width = 1 + max(max(s["target"] + (s["control"] or [])) for s in gs)
         cases.append((gs, calls, width, zero))
         exprs.append("rd %s %s %s %s" % (coq_bool(renamed), coq_nat(width), coq_calls(calls), coq_gates(gs)))
@@ -734,10 +751,23 @@ def run_density_stream(ck, n_cases, renamed):
         ck.case("density", json.dumps(replay, default=str), nontrivial=noisy_two_qubit(gs, calls),
                 sample={"gates": [LC.coq_gate(s) for s in gs][:4], "calls": jsonable_calls(calls), "n": n},
                 tags=classify(gs, calls) + (["zero-rates"] if zero else []))
-        if res[0] == "err":
-            ck.violation("C19/cirq/noisy-simulate-raises/%s" % res[1], "well-formed noise model on a valid circuit: simulate "
-                         "raises %s" % res[1], replay, found_input=True)
+        bad = non_channels(gs, errors_of_calls(calls))
+        if bad:
+            # not a channel for a gate it meets: must be rejected (cirq's constructors do it at translation time)
+            ck.stream("density")["dist"]["expected-rejection"] = ck.stream("density")["dist"].get("expected-rejection", 0) + 1
+            if res[0] != "err":
+                ck.violation("C19/noise/non-channel-depol-accepted", "parameters %s are not channels but the circuit was "
+                             "simulated" % (bad[:2],), dict(replay, kind="rate"), found_input=True)
+            elif m is not None and not m.startswith("Err"):
+                ck.violation("C19/correspondence/density/rejection", "implementation rejects (%s), model evaluates" % res[1],
+                             replay, found_input=False)
             continue
+        if res[0] == "err":
+            ck.violation("C19/cirq/noisy-simulate-raises/%s" % res[1], "valid noise model (every parameter a channel for the "
+                         "gates it meets) on a valid circuit: simulate raises %s" % res[1], replay, found_input=True)
+            continue
+        if any(nt == "depol" and v > 1 for l in errors_of_calls(calls).values() for nt, v in l):
+            ck.stream("density")["dist"]["depol-above-one-valid"] = ck.stream("density")["dist"].get("depol-above-one-valid", 0) + 1
         rho, (backend, circ) = res[1], res[2]
         errs = errors_of_calls(calls)
         r_spec = oracle_density(gs, errs, n)
@@ -978,12 +1008,15 @@ def replay(data):
         errs = errors_of_calls(calls)
         bad = 0
         if kind == "rate":
-            out = [(g, nt, v) for g, lst in errs.items() for nt, v in lst
-                   if any(asis_key(s) == g for s in gs) and
-                   ((nt == "depol" and (v < 0 or v > 1)) or
-                    (nt == "pauli" and all(e is not None for e in v) and (any(e < 0 or e > 1 for e in v) or sum(v) > 1)))]
+            out = []
+            for s_ in gs:
+                k = len(s_["target"]) + len(s_["control"] or [])
+                for nt, v in errs.get(s_["name"], []):
+                    if (nt == "depol" and (v < 0 or v * (4 ** k - 1) / 4 ** k > 1)) or \
+                            (nt == "pauli" and all(e is not None for e in v) and (any(e < 0 for e in v) or sum(v) > 1)):
+                        out.append((s_["name"], nt, v))
             bad = 1 if (st == "ok" and out) else 0
-            print("out-of-range rates accepted and translated" if bad else "rejected")
+            print("a specification that is not a channel was accepted and translated" if bad else "rejected / valid")
             return bad
         res = density_impl(gs, calls)
         if res[0] == "ok":
